@@ -79,7 +79,7 @@ PROPS["C20"] = {
 NOT_APPLICABLE = {}
 
 # verif-guarded hook commits in /repo (add-only)
-HOOK_COMMITS = ["fd0e965", "d11cf72", "46739fb", "981ad0e", "643526d", "e05858a", "edb0adb", "7d5379a", "42d08ad", "d63880c", "c52c40e", "cfdc2ec", "ee229a3", "82ee13c", "c8aaeb5", "daf1a1c", "2ce3bf7", "5773edf", "e263970"]
+HOOK_COMMITS = ["fd0e965", "d11cf72", "46739fb", "981ad0e", "643526d", "e05858a", "edb0adb", "7d5379a", "42d08ad", "d63880c", "c52c40e", "cfdc2ec", "ee229a3", "82ee13c", "c8aaeb5", "daf1a1c", "2ce3bf7", "5773edf", "e263970", "c0747c3"]
 
 PROPS["C09"] = {
     "modules": ["OxiaVerif.Props.C09", "OxiaVerif.Props.C09OnTree"],
@@ -157,13 +157,13 @@ PROPS["C15"] = {
 }
 PROPS["C16"] = {
     "modules": ["OxiaVerif.Props.C16"],
-    "facts": ["overrideChannelInnerDefaultContinues", "sequenceUpdateOnlyOnSuccess"],
+    "facts": ["overrideChannelInnerDefaultContinues", "sequenceUpdateOnlyOnSuccess", "sequenceSubscriptionInitialValueDoesNotOverride"],
     "trusted_base": [KERNEL, EXTRACT, CORR, DBTRUST, "Go channel semantics of a capacity-1 channel with non-blocking select; the mutex in WriteLast serialises writers"],
     "assumptions": ["fair scheduling of the receiver goroutine (liveness is proved in safety form: the latest value is always the one visible)",
                     "numeric order = key order for 20-digit decimals is covered by C11's order laws and correspondence, not by a theorem here"],
     "rule": DBRULE + ", in sequence mode: several sequence puts per request on prefixes p, q, p/q, s, deltas 1..10, 0, 2^40, 2^64-1, 1-3 suffixes, mixed with plain puts and deletes of neighbouring keys (p-0abc, p-1, p--1, p-, p.). Oracle: generated key = prefix + one 20-digit suffix per delta, strictly greater than every existing sequence key of the prefix, never an existing key. Added: sequence-update subscribers (GetSequenceUpdates on the real database) that come and go between the writes of a third of the programs (sq.sub / sq.close / sq.last); oracle: a subscriber's latest value is the latest key generated for its prefix since it subscribed, never the empty key or the key of a rejected put. Non-trivial = at least two generated keys or a multi-suffix key.",
     "level_text": "Machine-checked proof (Lean 4): the generated key is exactly prefix + '-%020d' of (existing suffix or 0) + delta in uint64 for every delta list (closed form, induction over the delta list); a zero first delta is refused; for every interleaving of writer steps and receiver steps of the override channel the value of the last completed WriteLast is the one the subscriber has seen last or sees next (given the shape of WriteLast read from the source; counterexample if the inner default returned). Tied to db_sequences.go by differential runs.",
-    "level_note": "Trusted: Lean kernel; extractor rule on WriteLast; " + DBTRUST + "; Go channel semantics. Known findings on the current tree (strictly-greater / never-overwrites fail): D-17 uint64 wrap-around, D-29 foreign key under the prefix. Fixed D-54 (a rejected sequence put announced a key to the subscribers). The wait tracker itself (ids, removal) is covered by the subscriber scripts only.",
+    "level_note": "Trusted: Lean kernel; extractor rule on WriteLast; " + DBTRUST + "; Go channel semantics. Known findings on the current tree (strictly-greater / never-overwrites fail): D-17 uint64 wrap-around, D-29 foreign key under the prefix. Fixed D-54 (a rejected sequence put announced a key to the subscribers) and D-55 (the initial read of a subscription replaced a newer key announced by a write in progress; scheduled through the yield point sequence.waiter.added). The wait tracker itself (ids, removal) is covered by the subscriber scripts only.",
     "technique": "Lean 4 proof (closed form by induction; interleaving invariant of a pc machine) + regenerated fact + differential correspondence",
     "design_ref": "DESIGN.md section 6 C16",
 }
